@@ -390,6 +390,15 @@ Theorem C06_pad_call_x : forall (left : bool) (s : bytes) (n : nat) (pad : bytes
 Proof. exact fx_pad_call. Qed.
 Print Assumptions C06_pad_call_x.
 
+(* the two judges agree: where the reference semantics (sem, which judges the V / S / F lines) gives an
+   expression built from calls a value, the model of the built-ins (ysem, which judges the G lines)
+   gives the same value - or leaves it outside its fragment (a computed zero rendered as text) *)
+Theorem C06_call_model_consistent : forall row e v,
+  sem row e = Some v -> cols_ok row Strict e = true ->
+  ysem (lift_row row) e = YOk (YS v) \/ ysem (lift_row row) e = YUnm.
+Proof. exact ysem_consistent_with_sem. Qed.
+Print Assumptions C06_call_model_consistent.
+
 (* ---- where the code violates the statement (findings; witnesses replayed on the real engine) ---- *)
 Definition col_a : bytes := [97]%N.
 Definition case_a_gt_2 : xetop :=
@@ -471,3 +480,12 @@ Proof.
   vm_compute. repeat split; try reflexivity; try discriminate.
   repeat constructor.
 Qed.
+
+(* upper(lpad(s, 7, 'ab')) on s = 'hello': both semantics give 'ABHELLO' *)
+Example C06_consistent_example :
+  let hello := [104;101;108;108;111]%N in
+  let row := [([115]%N, VStr hello)] in
+  let e := ECall nm_upper [ECall nm_lpad [ECol [115]%N; ENum 7; EStr [97;98]%N]] in
+  sem row e = Some (VStr [65;66;72;69;76;76;79]%N) /\ cols_ok row Strict e = true /\
+  ysem (lift_row row) e = YOk (YS (VStr [65;66;72;69;76;76;79]%N)).
+Proof. vm_compute. repeat split; reflexivity. Qed.
